@@ -9,6 +9,10 @@
 //            rres = (panicked errkind pkt consumed wanted maxcap)
 // input    (3 data (chunk ...))                                  WriteLenData / ReadLenData
 // observed ((panicked ret err (#write ...)) (panicked errkind #data consumed wanted maxcap))
+// input    (8 ver thrArg cipher keyseed pkt k)                    WritePacket into a writer that fails after k bytes,
+// observed ((enc) (zip) wres accepted wfailed wres2)             then the same packet (fresh object) into a good writer
+// input    (9 data k)                                            WriteLenData into such a writer
+// observed (panicked ret err (#write ...) accepted wfailed)
 // input    (4 ver nref bodylen seed thrArg [pattern])            frame-size / reference-count limit probe:
 // observed (panicked ret err nbytes nwrites decoded)             a packet with nref references and an
 //                                                                incompressible body of bodylen bytes (regenerated
@@ -412,6 +416,63 @@ func runLimit(in Sx) Sx {
 	return List(Bool(panicked), Int(int64(n)), Bool(err != nil), Int(int64(len(w.b))), Int(int64(w.nwrite)), Bool(decoded))
 }
 
+// limWriter accepts k bytes in all; a Write that does not fit takes what fits and fails
+type limWriter struct {
+	left     int
+	calls    [][]byte
+	accepted int
+	failed   bool
+}
+
+func (w *limWriter) Write(p []byte) (int, error) {
+	w.calls = append(w.calls, append([]byte(nil), p...))
+	if len(p) <= w.left {
+		w.left -= len(p)
+		w.accepted += len(p)
+		return len(p), nil
+	}
+	n := w.left
+	w.left = 0
+	w.accepted += n
+	w.failed = true
+	return n, io.ErrShortWrite
+}
+
+func runFailingWriter(in Sx) Sx {
+	ver, thr, cidx, keyseed, k := in.At(1).AsInt(), in.At(2).AsInt(), in.At(3).AsInt(), in.At(4).Uint64(), in.At(6).AsInt()
+	enc := NewEncoder(ver, thr)
+	rec := NewRecorder(NewCipher(cidx, keyseed))
+	zipT := NewTable()
+	one := func(w io.Writer, calls func() [][]byte) Sx {
+		p := PacketFromSx(in.At(5))
+		if pb, _ := Catch(func() { AddZip(zipT, append([]byte(nil), p.BodyToBytes()...)) }); pb {
+			_ = pb
+		}
+		var n int
+		var err error
+		panicked, _ := Catch(func() { n, err = enc.WritePacket(w, rec.AsCryptor(), p) })
+		var all []byte
+		for _, c := range calls() {
+			all = append(all, c...)
+		}
+		return List(Bool(panicked), Int(int64(n)), Bool(err != nil), writesSx(calls()), PacketSx(p, List(Int(0))), Uint(uint64(crc32.ChecksumIEEE(all))))
+	}
+	lw := &limWriter{left: k}
+	w1 := one(lw, func() [][]byte { return lw.calls })
+	good := &recWriter{}
+	w2 := one(good, func() [][]byte { return good.writes }) // a later packet on a fresh writer
+	return List(rec.Enc.Sx(), zipT.Sx(), w1, Int(int64(lw.accepted)), Bool(lw.failed), w2)
+}
+
+func runFailingLenData(in Sx) Sx {
+	data, k := DataFromSx(in.At(1)), in.At(2).AsInt()
+	lw := &limWriter{left: k}
+	var n int
+	var err error
+	p, _ := Catch(func() { n, err = codec.WriteLenData(lw, data) })
+	return List(Bool(p), Int(int64(n)), Bool(err != nil), writesSx(lw.calls), Int(int64(lw.accepted)), Bool(lw.failed))
+}
+
 func run(in Sx) Sx {
 	switch in.At(0).Int64() {
 	case 1:
@@ -420,6 +481,10 @@ func run(in Sx) Sx {
 		return runLenData(in)
 	case 4:
 		return runLimit(in)
+	case 8:
+		return runFailingWriter(in)
+	case 9:
+		return runFailingLenData(in)
 	case 5:
 		return runReencode(in)
 	case 6:
@@ -713,6 +778,37 @@ func gen(a Args, out *Out) {
 				out.GoChecked += obs.At(0).Int64()
 			}
 		}
+	}
+	// 1f. a writer that fails after k bytes (before the header, inside it, between header and body,
+	// inside the body, exactly at the end): the error must be reported, no call after the failing one;
+	// the same packet then goes to a good writer through the same codec
+	nfw := 60
+	if a.Thorough() {
+		nfw = 600
+	}
+	for i := 0; i < nfw; i++ {
+		ver := rng.PickInt(1, 2)
+		thr := rng.PickInt(0, 16, 1<<24)
+		bl := rng.PickInt(0, 1, 20, 40, 300)
+		p, kd := genPacket(rng, ver, thr, bl, rng.PickInt(1, 2, 3), out)
+		if kd != "plain" {
+			continue
+		}
+		hs := HeaderSize(ver)
+		if ver == 2 {
+			hs += 4 * p.At(5).Len()
+		}
+		k := rng.PickInt(0, 1, hs-1, hs, hs+1, hs+bl-1, hs+bl, hs+bl+5, rng.Intn(hs+bl+2))
+		if k < 0 {
+			k = 0
+		}
+		cidx := rng.PickInt(0, 0, 1+rng.Intn(len(CipherNames)-1))
+		emit("failing-writer", List(Int(8), Int(int64(ver)), Int(int64(thr)), Int(int64(cidx)), Uint(rng.Next()&0xFFFFFFFF), p, Int(int64(k))))
+	}
+	for i := 0; i < 20; i++ {
+		n := rng.PickInt(0, 1, 5, 40)
+		d, _ := DataSx(uint32(rng.Next()), n, 255, 65)
+		emit("failing-writer", List(Int(9), d, Int(int64(rng.PickInt(0, 1, 2, 3, n+1, n+2, n+3)))))
 	}
 	// 2. the frame-size limits: V1 at 60 KiB (body so that header+body = limit-1, limit, limit+1),
 	// without and with cipher, with compression off (huge threshold) and on (incompressible
